@@ -243,6 +243,76 @@ func checkC17(c *Ctx) {
 		}
 	}
 
+	// Z8: closing a closed channel panics, and that panic is raised by the deferred close itself, after every boundary of
+	// the function has run. A function that defers the close of the event channel must not close it (directly or through a
+	// callee that closes it) anywhere else.
+	r.Rule("C17.Z8", "a function that defers the close of the event channel closes it nowhere else", 1)
+	if emz, _ := loadEventModel(p); emz != nil {
+		closers := map[*ssa.Function]bool{}
+		for _, fn := range p.ModuleFuncs() {
+			for _, b := range fn.Blocks {
+				for _, ins := range b.Instrs {
+					if ci, ok := ins.(ssa.CallInstruction); ok {
+						if bi, ok := ci.Common().Value.(*ssa.Builtin); ok && bi.Name() == "close" && len(ci.Common().Args) == 1 && emz.isEventChan(ci.Common().Args[0].Type()) {
+							closers[fn] = true
+						}
+					}
+				}
+			}
+		}
+		changedZ := true
+		for changedZ {
+			changedZ = false
+			for _, fn := range p.ModuleFuncs() {
+				if closers[fn] {
+					continue
+				}
+				for _, cal := range p.ModuleCallees(fn) {
+					if closers[cal] {
+						closers[fn] = true
+						changedZ = true
+						break
+					}
+				}
+			}
+		}
+		deferring := 0
+		for _, f := range sortedFuncs(reach) {
+			var deferred, plain []ssa.Instruction
+			for _, b := range f.Blocks {
+				for _, ins := range b.Instrs {
+					ci, ok := ins.(ssa.CallInstruction)
+					if !ok {
+						continue
+					}
+					isClose := false
+					if bi, ok := ci.Common().Value.(*ssa.Builtin); ok && bi.Name() == "close" && len(ci.Common().Args) == 1 && emz.isEventChan(ci.Common().Args[0].Type()) {
+						isClose = true
+					}
+					if cal := ci.Common().StaticCallee(); cal != nil && closers[cal] {
+						isClose = true
+					}
+					if !isClose {
+						continue
+					}
+					if _, isDefer := ins.(*ssa.Defer); isDefer {
+						deferred = append(deferred, ins)
+					} else {
+						plain = append(plain, ins)
+					}
+				}
+			}
+			if len(deferred) == 0 {
+				continue
+			}
+			deferring++
+			r.Check(len(deferred) == 1 && len(plain) == 0, "C17.Z8", FuncKey(f)+"#deferred-close", p.Pos(deferred[0].Pos()), "the deferred close is the only close", fmt.Sprintf("the function defers the close of the event channel and also closes it %d more time(s) (directly or through a callee): on those paths the deferred close panics with `close of closed channel` after the recover boundary has already run", len(plain)+len(deferred)-1))
+		}
+		if deferring == 0 {
+			r.OK("C17.Z8", "census", "", "no function in reach defers the close of the event channel (closes are explicit, counted per path by C11.T2)")
+		}
+	}
+
 	// Z3: goroutines
 	gos := 0
 	for f := range reach {
